@@ -113,7 +113,56 @@ func (f *Func) namedConst(e ast.Expr) *types.Const {
 
 // exprKey renders an expression for access-path comparison (spaces removed).
 func exprKey(e ast.Expr) string {
-	return strings.ReplaceAll(types.ExprString(ast.Unparen(e)), " ", "")
+	return strings.ReplaceAll(types.ExprString(dropParens(ast.Unparen(e), false)), " ", "")
+}
+
+// dropParens returns e without the parentheses that do not change its meaning: around primary expressions anywhere,
+// and around any operand that is not itself the operand of a selector, index, call, star, unary or binary expression
+// (tight: the parent binds tighter than a unary or binary operator would).
+func dropParens(e ast.Expr, tight bool) ast.Expr {
+	switch x := e.(type) {
+	case *ast.ParenExpr:
+		inner := dropParens(x.X, false)
+		switch inner.(type) {
+		case *ast.Ident, *ast.SelectorExpr, *ast.CallExpr, *ast.IndexExpr, *ast.TypeAssertExpr, *ast.BasicLit, *ast.CompositeLit, *ast.SliceExpr:
+			return inner
+		}
+		if !tight {
+			return inner
+		}
+		return &ast.ParenExpr{X: inner}
+	case *ast.SelectorExpr:
+		return &ast.SelectorExpr{X: dropParens(x.X, true), Sel: x.Sel}
+	case *ast.IndexExpr:
+		return &ast.IndexExpr{X: dropParens(x.X, true), Index: dropParens(x.Index, false)}
+	case *ast.SliceExpr:
+		y := *x
+		y.X = dropParens(x.X, true)
+		return &y
+	case *ast.TypeAssertExpr:
+		return &ast.TypeAssertExpr{X: dropParens(x.X, true), Type: x.Type}
+	case *ast.StarExpr:
+		return &ast.StarExpr{X: dropParens(x.X, true)}
+	case *ast.UnaryExpr:
+		return &ast.UnaryExpr{Op: x.Op, X: dropParens(x.X, true)}
+	case *ast.BinaryExpr:
+		return &ast.BinaryExpr{X: dropParens(x.X, true), Op: x.Op, Y: dropParens(x.Y, true)}
+	case *ast.CallExpr:
+		y := &ast.CallExpr{Fun: dropParens(x.Fun, true), Ellipsis: x.Ellipsis}
+		for _, a := range x.Args {
+			y.Args = append(y.Args, dropParens(a, false))
+		}
+		return y
+	case *ast.KeyValueExpr:
+		return &ast.KeyValueExpr{Key: x.Key, Value: dropParens(x.Value, false)}
+	case *ast.CompositeLit:
+		y := &ast.CompositeLit{Type: x.Type}
+		for _, el := range x.Elts {
+			y.Elts = append(y.Elts, dropParens(el, false))
+		}
+		return y
+	}
+	return e
 }
 
 // stripConv removes conversions T(x) and parentheses.
